@@ -209,7 +209,7 @@ def cost_forms() -> list[dict]:
 
 
 COST_VALUES = {
-    'number_per': [None, '3', '4.25'], 'number_total': [None, '7', '8.5'], 'currency': [None, 'EUR', 'CAD'],
+    'number_per': [None, '0', '4.25'], 'number_total': [None, '0.00', '8.5'], 'currency': [None, 'EUR', 'CAD'],
     'date': [None, '2001-02-03', '1999-12-31'], 'label': [None, 'a', 'b "q"'], 'merge': [False, True],
 }
 
